@@ -63,6 +63,10 @@ class NpNewaxis:
     pass
 
 
+class NpCUnderscore:
+    """np.c_[a, b, ...]: column stack of 1-D / 2-D arrays"""
+
+
 def native(f):
     f._pyvc_native = True
     return f
@@ -164,6 +168,9 @@ class Lib:
         np["abs"] = LibFunc("np.abs", _map(_abs))
         np["absolute"] = np["abs"]
         np["rint"] = LibFunc("np.rint", _map(sv.rint, "float"))
+        np["sign"] = LibFunc("np.sign", _map(lambda x: ite(sv.cmp(">", x, 0), 1, lambda: ite(sv.cmp("<", x, 0), -1, 0))))
+        np["maximum"] = LibFunc("np.maximum", lambda i, a, b: A.ew(sv.maxv, a if sv.is_scalar(norm(a)) else _arr(a, i), b if sv.is_scalar(norm(b)) else _arr(b, i)))
+        np["minimum"] = LibFunc("np.minimum", lambda i, a, b: A.ew(sv.minv, a if sv.is_scalar(norm(a)) else _arr(a, i), b if sv.is_scalar(norm(b)) else _arr(b, i)))
         np["floor"] = LibFunc("np.floor", _map(lambda x: sv.to_real(sv.floor(x)), "float"))
         np["ceil"] = LibFunc("np.ceil", _map(lambda x: sv.neg(sv.to_real(sv.floor(sv.neg(x)))), "float"))
         np["trunc"] = LibFunc("np.trunc", _map(lambda x: sv.to_real(sv.trunc(x)), "float"))
@@ -206,6 +213,17 @@ class Lib:
             "exp": LibFunc("cmath.exp", lambda i, x: sv.exp(sv.as_cx(norm(x)))),
             "pi": sv.PI,
         }
+        from . import pandas_model as PM
+        self.mods["pandas"] = {"DataFrame": LibFunc("pd.DataFrame", PM.dataframe_ctor), "Series": LibFunc("pd.Series", PM.series_ctor)}
+        np["histogram"] = LibFunc("np.histogram", self.np_histogram)
+        np["c_"] = NpCUnderscore()
+        np["linspace"] = LibFunc("np.linspace", self.np_linspace)
+        np["save"] = LibFunc("np.save", lambda i, path, a, **k: cur().trace.append(("np.save", path, A.copy(_arr(a, i)), cur().where)))
+        np["savetxt"] = LibFunc("np.savetxt", lambda i, path, a, **k: cur().trace.append(("np.savetxt", path, A.copy(_arr(a, i)), dict(k), cur().where)))
+        np["hstack"] = LibFunc("np.hstack", self.np_hstack)
+        np["ones"] = LibFunc("np.ones", lambda i, shape, dtype=None, **k: A.binop("+", self.np_zeros(i, shape, dtype), 1))
+        np["ones_like"] = LibFunc("np.ones_like", lambda i, a, dtype=None: A.binop("+", self.np_zeros_like(i, a, dtype), 1))
+        np["isclose"] = LibFunc("np.isclose", lambda i, a, b, **k: i.binop("==", a, b))   # A1: floats are reals, tolerance collapses to equality
         from . import libext
         libext.load_all(self)
 
@@ -270,6 +288,98 @@ class Lib:
         if isinstance(a, (A.Arr, Ref, list, tuple)):
             return A.unop(f, _arr(a, interp))
         return f(a)
+
+    def np_histogram(self, interp, a, bins=10, range=None, weights=None, **kw):
+        """ASSUMED contract of np.histogram(a, bins=B, range=(lo, hi), weights=w): equal-width bins on [lo, hi];
+        counts[k] = sum_j w_j [e_k <= a_j < e_{k+1}  or  (k == B-1 and a_j == hi)],  e_k = lo + k (hi - lo) / B;
+        returns (counts (B,), edges (B+1,)).  a may be a boolean-mask selection (factor [mask_j])."""
+        if range is None:
+            raise EngineError("np.histogram without range")
+        lo, hi = [norm(x) for x in interp.iter_concrete(range)]
+        B = norm(bins)
+        if isinstance(B, (A.Arr, Ref)):
+            raise EngineError("np.histogram with explicit edges")
+        a = norm(a)
+        if isinstance(a, A.Masked):
+            if a.rest != ():
+                raise EngineError("histogram of masked nd selection")
+            n, src, mask = a.n, (lambda t: a.src((t,))), a.mask
+        else:
+            a = _arr(a, interp)
+            if a.ndim != 1:
+                raise EngineError("histogram of nd array")
+            r = a.reader()
+            n, src, mask = a.shape[0], (lambda t: r((t,))), None
+        w = None
+        if weights is not None:
+            weights = norm(weights)
+            if isinstance(weights, A.Masked):
+                wm = weights
+                A.require_dim_eq(wm.n, n, "histogram-weights")
+                w = lambda t: wm.src((t,))
+            else:
+                wa = _arr(weights, interp)
+                A.require_dim_eq(wa.shape[0], n, "histogram-weights")
+                wr = wa.reader()
+                w = lambda t: wr((t,))
+        width = sv.div(sv.sub(hi, lo), B)
+
+        def edge(k):
+            return sv.add(lo, sv.mul(k, width))
+
+        def inbin(x, k):
+            return sv.or_(sv.and_(sv.cmp("<=", edge(k), x), sv.cmp("<", x, edge(sv.add(k, 1)))),
+                          sv.and_(sv.cmp("==", k, sv.sub(B, 1)), sv.cmp("==", x, hi)))
+
+        def cnt(idx):
+            k = idx[0]
+
+            def body(t):
+                c = inbin(src(t), k)
+                if mask is not None:
+                    c = sv.and_(mask(t), c)
+                return ite(c, (w(t) if w is not None else 1), 0)
+            return Sum(0, n, body)
+        if not is_conc(B):
+            cur().require(sv.cmp(">=", B, 1), "histogram-bins>=1")
+        dt = "int" if w is None else "float"
+        counts = A.new_arr((B,), cnt, dt)
+        edges = A.new_arr((A.simp(sv.add(B, 1)),), lambda idx: edge(idx[0]), "float")
+        return (counts, edges)
+
+    def np_linspace(self, interp, a, b, num=50, **kw):
+        a, b, n = norm(a), norm(b), norm(num)
+        if not is_conc(n):
+            cur().require(sv.cmp(">=", n, 2), "linspace-num>=2")
+        elif n < 2:
+            raise EngineError("linspace with fewer than 2 points")
+        step = sv.div(sv.sub(b, a), sv.sub(n, 1))
+        return A.new_arr((n,), lambda idx: sv.add(a, sv.mul(idx[0], step)), "float")
+
+    def np_hstack(self, interp, tup):
+        parts = [_arr(x, interp) for x in interp.iter_concrete(tup)]
+        if all(p.ndim == 1 for p in parts):
+            lens = [p.shape[0] for p in parts]
+            readers = [p.reader() for p in parts]
+            total = 0
+            for l in lens:
+                total = sv.add(total, l)
+            dt = A.promote(*[p.dtype for p in parts])
+
+            def fn(idx):
+                x = idx[0]
+                off = 0
+                out = None
+                chain = []
+                for l, r in zip(lens, readers):
+                    chain.append((off, l, r))
+                    off = sv.add(off, l)
+                out = chain[-1][2]((A.simp(sv.sub(x, chain[-1][0])),))
+                for o, l, r in reversed(chain[:-1]):
+                    out = ite(sv.cmp("<", x, sv.add(o, l)), (lambda r=r, o=o: r((A.simp(sv.sub(x, o)),))), out)
+                return out
+            return A.new_arr((A.simp(total),), fn, dt)
+        return self.np_column_stack(interp, tup)
 
     def np_diff(self, interp, a):
         a = _arr(a, interp)
@@ -456,6 +566,9 @@ class Lib:
         if isinstance(obj, SeriesVal):
             from .pandas_model import series_attr
             return series_attr(interp, obj, name)
+        from .pandas_model import GroupBy, GroupMean
+        if isinstance(obj, (GroupBy, GroupMean)):
+            return BoundLib("groupby." + name, obj)
         if isinstance(obj, DType):
             if name == "name":
                 return obj.name
@@ -495,6 +608,11 @@ class Lib:
             return df_getitem(interp, obj, key)
         if isinstance(obj, RangeVal):
             return obj.item(A._norm_index(key, obj.length()))
+        if isinstance(obj, NpCUnderscore):
+            return self.np_column_stack(interp, key if isinstance(key, tuple) else (key,))
+        if isinstance(obj, BoundLib) and obj.name == "df.loc":
+            from .pandas_model import df_loc_getitem
+            return df_loc_getitem(interp, obj.recv, key)
         if isinstance(obj, A.Masked):
             raise EngineError("indexing a masked selection")
         raise EngineError(f"subscript of {type(obj).__name__}")
